@@ -49,10 +49,10 @@ MkUnion(ms) == Union(Flatten(ms))
 (***************************************************************************)
 GenericFrames == {"list", "dictk", "dictv", "tup1", "tupmany", "tupmany1", "listdisp"}
 DictIncFrames == {"dikey", "dival", "diopt", "dimany"}
-TypedDictFrames == {"tdreq", "tdnreq", "tdro", "tdopt", "tdextra", "tdextraro"}
+TypedDictFrames == {"tdreq", "tdnreq", "tdro", "tdopt", "tdoptrev", "tdextra", "tdextraro"}
 TypeFrames == {"type", "exactly"}
 UnionFrames == {"optional", "unionr"}
-AnnotatedFrames == {"annval", "annmd", "anntg", "annti", "annpg", "annnrg", "annha", "annhag", "anncc"}
+AnnotatedFrames == {"annval", "annmd", "anntg", "annti", "annpg", "annnrg", "annha", "annhag", "anncc", "annccrev"}
 CallableFrames == {"cparam", "cparamd", "cparampk", "cret", "cvar", "ckw", "cvarkw", "casynq", "c2xy", "c2yx"}
 OtherFrames == {"unpacked", "atask"}
 Frames == GenericFrames \cup DictIncFrames \cup TypedDictFrames \cup TypeFrames \cup UnionFrames \cup AnnotatedFrames
@@ -74,6 +74,8 @@ Plug(f, x) ==
       [] f = "tdnreq"    -> TD(<<Ent("a", FALSE, x)>>)
       [] f = "tdro"      -> TD(<<EntX("a", TRUE, TRUE, x)>>)
       [] f = "tdopt"     -> TD(<<EntX("a", FALSE, TRUE, x), Ent("b", TRUE, Typed("int"))>>)
+      \* the same entries as "tdopt" declared in the other order (the same type: entries are a mapping)
+      [] f = "tdoptrev"  -> TD(<<Ent("b", TRUE, Typed("int")), EntX("a", FALSE, TRUE, x)>>)
       [] f = "tdextra"   -> TDX(<<Ent("a", TRUE, Typed("int"))>>, <<x>>, FALSE)
       [] f = "tdextraro" -> TDX(<<Ent("a", TRUE, Typed("int"))>>, <<x>>, TRUE)
       [] f = "type"      -> SubclassT(x)
@@ -89,6 +91,8 @@ Plug(f, x) ==
       [] f = "annha"     -> AnnotatedT(Typed("A"), <<ExtT("hasattr", x)>>)
       [] f = "annhag"    -> AnnotatedT(Typed("bool"), <<ExtT("hasattrguard", x)>>)
       [] f = "anncc"     -> AnnotatedT(x, <<ExtT("literalonly", AnyT), ExtT("value", Known(SA))>>)
+      \* the same metadata as "anncc" in the other order (a different type: metadata is a sequence)
+      [] f = "annccrev"  -> AnnotatedT(x, <<ExtT("value", Known(SA)), ExtT("literalonly", AnyT)>>)
       [] f = "cparam"    -> CallableT(<<Prm("x", "pos", x, FALSE)>>, Typed("int"))
       [] f = "cparamd"   -> CallableT(<<Prm("x", "pos", x, TRUE)>>, Typed("int"))
       [] f = "cparampk"  -> CallableT(<<Prm("x", "pk", x, FALSE)>>, Typed("int"))
